@@ -24,11 +24,12 @@ func (r *chunkedReader) Read(p []byte) (n int, err error) {
 	sizeToRead := len(p)
 	for sizeToRead > 0 {
 		if r.chunkRemain > sizeToRead {
-			r.chunkRemain -= sizeToRead
 			// read sizeToRead bytes from inner reader
 			// to p, start from n.
 			// n is bytes already read.
 			innerN, err := r.inner.Read(p[n : n+sizeToRead])
+			// the inner reader may return fewer bytes than asked for:
+			r.chunkRemain -= innerN
 			sizeToRead -= innerN
 			n += innerN
 			if err != nil {
